@@ -91,10 +91,12 @@ func (c *Ctx) withOnly(rules map[string]string, construct func(string) bool, flo
 	if c.only != nil {
 		return
 	}
-	n0 := len(c.Obs)
+	n0, f0 := len(c.Obs), len(c.Fatal)
 	c.only, c.onlyConstruct = rules, construct
 	run()
 	c.only, c.onlyConstruct = nil, nil
+	// what the other property's rules could not resolve is that property's to report; here only the floor counts
+	c.Fatal = c.Fatal[:f0]
 	c.Floor(floorRule, len(c.Obs)-n0, floor)
 }
 
